@@ -2,5 +2,5 @@ Require Import Base BBox.
 Require Import Extraction ExtrOcamlBasic.
 Extraction Blacklist List String Int.
 Extraction "../ocaml/extracted/c09.ml" q_of_bits grid_round bbox polygon_bbox label_bbox
-  cell_query ref_bbox_c ref_hull_c convex_hull_w convex_hull_w_fixed hull_mc canon_pts flatten ref_points rep_points
-  collinearb same_x fallback cache_get cache_set cell_name cell_refs corners rat N.ltb N.leb.
+  cell_query_g ref_bbox_g ref_hull_g convex_hull_w convex_hull_w_old hull_mc canon_pts flatten ref_points rep_points
+  collinearb same_x fallback fallback_old cache_get cache_set cell_name cell_refs corners rat N.ltb N.leb.
